@@ -1,0 +1,34 @@
+//go:build verif
+
+// Contracts for package scorch: the live documents of a segment snapshot (read by /verif/gocv;
+// comment-only effect with the verif tag off).
+//
+// C01 / C02: what match-all, doc-id lookups and the introducer see of a segment are its documents
+// MINUS the snapshot's deleted bitmap: DocNumbersLive is exactly [0, count) without the deleted
+// ones, DocNumbers(ids) is what the segment reports for the ids without the deleted ones.
+
+package scorch
+
+//@ assume func roaring.NewBitmap()
+//@   ensures result != nil && fresh(result) && all(x, uint32, !bhas(result, x))
+//@ assume func roaring.Bitmap.AddRange(rb, rangeStart, rangeEnd)
+//@   requires rb != nil
+//@   modifies rb.mem
+//@   ensures all(x, uint32, iff(bhas(rb, x), old(bhas(rb, x)) || (rangeStart <= uint64(x) && uint64(x) < rangeEnd)))
+//@ assume func roaring.Bitmap.AndNot(rb, x2)
+//@   requires rb != nil && x2 != nil
+//@   modifies rb.mem
+//@   ensures all(x, uint32, iff(bhas(rb, x), old(bhas(rb, x)) && !bhas(x2, x)))
+
+//@ func SegmentSnapshot.DocNumbersLive
+//@   props C01 C02
+//@   mode int
+//@   requires s != nil && s.segment != nil
+//@   ensures result != nil && fresh(result) && all(x, uint32, iff(bhas(result, x), uint64(x) < segDocs(s.segment) && !bin(s.deleted, x)))
+
+//@ func SegmentSnapshot.DocNumbers
+//@   props C01 C02
+//@   mode int
+//@   requires s != nil && s.segment != nil
+//@   modifies roaring.Bitmap.mem
+//@   ensures implies(result1 == nil, result0 != nil && all(x, uint32, implies(bhas(result0, x), !bin(s.deleted, x))))
